@@ -335,3 +335,95 @@ func HarnessC18Identity() {
 		}
 	}
 }
+
+// ---------------------------------------------------------------------------------
+// C04 (pipeline stage): every combination of compile options on grammatical sources (well- and ill-typed),
+// node-replacing patch visitors, environments with nil members and panicking functions:
+// Compile/Run/Eval return a result or an error, never panic; error => nil program/value.
+
+type vfReplacer struct{ mode int }
+
+func (r *vfReplacer) Enter(n *ast.Node) {}
+func (r *vfReplacer) Exit(n *ast.Node) {
+	switch r.mode {
+	case 1: // integer literals -> constants
+		if in, ok := (*n).(*ast.IntegerNode); ok {
+			ast.Patch(n, &ast.ConstantNode{Value: in.Value})
+		}
+	case 2: // identifiers -> string literals
+		if id, ok := (*n).(*ast.IdentifierNode); ok {
+			ast.Patch(n, &ast.StringNode{Value: id.Value})
+		}
+	case 3: // unknown name X -> A (a patch that repairs)
+		if id, ok := (*n).(*ast.IdentifierNode); ok && id.Value == "X" {
+			ast.Patch(n, &ast.IdentifierNode{Value: "A"})
+		}
+	case 4: // binary + -> nil literal
+		if b, ok := (*n).(*ast.BinaryNode); ok && b.Operator == "+" {
+			ast.Patch(n, &ast.NilNode{})
+		}
+	}
+}
+
+func (e *vfEnv) Add(a, b int) int { return a + b }
+
+func HarnessC04Compile() {
+	src := vfParamStr("src")
+	var ops []Option
+	envKind := vfChoice("env", 3)
+	switch envKind {
+	case 1:
+		ops = append(ops, Env(&vfEnv{}))
+	case 2:
+		ops = append(ops, Env(vfSampleMapEnv()))
+	}
+	if vfBool("allow-undefined") {
+		ops = append(ops, AllowUndefinedVariables())
+	}
+	if vfBool("no-optimize") {
+		ops = append(ops, Optimize(false))
+	}
+	switch vfChoice("as", 4) {
+	case 1:
+		ops = append(ops, AsBool())
+	case 2:
+		ops = append(ops, AsInt64())
+	case 3:
+		ops = append(ops, AsFloat64())
+	}
+	if envKind == 1 && vfBool("operator") {
+		ops = append(ops, Operator("+", "Add"))
+	}
+	if envKind == 1 && vfBool("constexpr") {
+		ops = append(ops, ConstExpr("Twice"))
+	}
+	if m := vfChoice("patch", 5); m > 0 {
+		ops = append(ops, Patch(&vfReplacer{m}))
+	}
+	program, err := Compile(src, ops...)
+	vfReach("c04.compile.returned")
+	if err != nil {
+		vfAssert(program == nil, "c04.compile.error-means-nil-program")
+		return
+	}
+	vfAssert(program != nil, "c04.compile.no-error-means-a-program")
+	// run it on an environment with nil members and a panicking function
+	e := &vfEnv{A: vfInt("A"), B: vfInt("B"), P: vfBool("P"), S: "a", Xs: []int{vfInt("x0")}}
+	e.Fn = func(x int) int { panic("boom") }
+	if vfBool("ptr") {
+		e.Ptr = &vfNode{V: 1}
+	}
+	var env interface{} = e
+	if envKind == 2 {
+		env = e.asMap()
+	}
+	out, rerr := Run(program, env)
+	vfReach("c04.run.returned")
+	if rerr != nil {
+		vfAssert(out == nil, "c04.run.error-means-nil-value")
+	}
+	out2, eerr := Eval(src, env)
+	if eerr != nil {
+		vfAssert(out2 == nil, "c04.eval.error-means-nil-value")
+	}
+}
